@@ -231,6 +231,20 @@ def run(report, tier, seed):
                 big = rng.choice([2.0 ** 63, 1e19, 6.02214076e23, 2.0 ** 70])
                 with numpoly.global_options(retain_coefficients=True, retain_names=True):
                     p = numpoly.polynomial_from_attributes(p.exponents, [c * big for c in p.coefficients], p.names)
+            if len(p.shape) >= 1 and rng.random() < 0.35:
+                # views whose memory order is not the logical order: transposes, permuted axes, reversed / strided slices
+                kind = rng.choice(["T", "perm", "rev", "step"]) if len(p.shape) >= 2 else rng.choice(["rev", "step"])
+                if kind == "T":
+                    p = p.T
+                elif kind == "perm":
+                    perm = list(range(len(p.shape)))
+                    rng.shuffle(perm)
+                    p = p.transpose(*perm)
+                elif kind == "rev":
+                    p = p[::-1]
+                else:
+                    p = p[..., ::2]
+                bump(dist.setdefault("views", {}), kind)
             g_rc, g_rn = rng.choice([(False, True), (False, True), (True, True), (False, False), (True, False)])
             lay = layout(p)
             tp = core.coq_parr(lay)
